@@ -196,11 +196,10 @@ def _dedupe(findings):
     return sorted(out, key=lambda f: f["line"])
 
 
-def _job_nonrep(i, nops, seed):
-    # recorded WITHOUT sanitizers: an out-of-storage read inside sample() must come back as "the
-    # result is not a surviving element" (a contract clause the spec decides, stable key), not as
-    # a sanitizer abort whose shape depends on what the stale memory happens to contain
-    binary = build_harness("pdf", needs_lib=False, san=None)
+def _job_nonrep(binary, i, nops, seed):
+    # `binary` is the build WITHOUT sanitizers: an out-of-storage read inside sample() must come
+    # back as "the result is not a surviving element" (a contract clause the spec decides, stable
+    # key), not as a sanitizer abort whose shape depends on what the stale memory happens to contain
     tpath = os.path.join(WORK, "c12-trace-nonrep-%d.ndjson" % i)
     if os.path.exists(tpath):
         os.remove(tpath)
@@ -419,11 +418,13 @@ def run(tier):
         if os.environ.get("VERIF_C12_NONREP", "1") == "0":
             nonrep = []
             ck.assumptions.append("VERIF_C12_NONREP=0: histories with non-representable weights were skipped")
-        nonrepf = [ex.submit(_job_nonrep, i, nops, vlib.seed() * 257 + i) for i, nops in enumerate(nonrep)]
+        plainf = ex.submit(_job_build, None) if nonrep else None
         driftf = [(inv, ex.submit(_job_drift, inv)) for inv in ("SampleInStorageDrift", "NoZeroWeightDrawnDrift")]
         binary = buildf.result()
         tracef = [ex.submit(_job_trace, binary, i, variant, nops, vlib.seed() * 131 + i)
                   for i, (variant, nops) in enumerate(rec)]
+        nonrepf = [ex.submit(_job_nonrep, plainf.result(), i, nops, vlib.seed() * 257 + i)
+                   for i, nops in enumerate(nonrep)]
         # 1. exhaustive model check of the implementation-shaped spec against the contract
         for name, f in mcf:
             res = f.result()
